@@ -57,8 +57,8 @@ def translate(repo):
             raise TranslateError('%s: expmv: initialisation of %s not found' % (path, k))
     X = QX({'ncv': 'ncv', 't': 't', 't_out': 't_out', 't_now': 't_now', 'tau': 'tau', 'tau_new': 'tau_new', 'ncv_new': 'ncv_new', 'ncv_max': 'ncv_max',
             'm': 'm', 'omega': 'omega', 'delta': 'delta'}, lens={'V': 'lenV'}, path=path, attrs={('v', 'size'): 'vsize'}, bools={'happy': 'happy'})
-    D.append(('expmv_ncv0', '(ncv ncv_max : Q)', X.tr(top['ncv']), 'Q'))
-    D.append(('expmv_ncv_max', '(vsize : Q)', X.tr(top['ncv_max']), 'Q'))
+    D.append(('expmv_ncv0', '(ncv : Q)', X.tr(top['ncv']), 'Q'))
+    D.append(('expmv_ncv_max', '(ncv vsize : Q)', X.tr(top['ncv_max']), 'Q'))
     D.append(('expmv_t_now0', '', X.tr(top['t_now']), 'Q'))
     D.append(('expmv_t_out0', '(t : Q)', X.tr(top['t_out']), 'Q'))
     D.append(('expmv_sgn', '(t t_out : Q)', X.tr(top['sgn']), 'Q'))
@@ -75,6 +75,10 @@ def translate(repo):
     W = loops[0]
     D.append(('expmv_continue', '(t_now t_out : Q)', X.cond(W.test), 'bool'))
     body = W.body
+    grow = [st for st in body if isinstance(st, ast.Assign) and isinstance(st.targets[0], ast.Name) and st.targets[0].id == 'ncv_max']
+    if len(grow) != 1 or ast.unparse(grow[0].value) != 'max(ncv_max, min(30, V[-1].size))':
+        raise TranslateError('%s: expmv: growth of ncv_max with the support of the Krylov vectors not recognised' % path)
+    D.append(('expmv_ncv_max_grow', '(ncv_max supp : Q)', '(Qmax ncv_max (Qmin (Qmake (30) 1) supp))', 'Q'))
     # happy branch
     happy_ifs = [i for i, s in enumerate(body) if isinstance(s, ast.If) and isinstance(s.test, ast.Name) and s.test.id == 'happy' and 'm' in _assign_map(s.body)]
     if len(happy_ifs) != 1:
@@ -136,9 +140,11 @@ def translate(repo):
         f = find_function(tree, fname, path)
         am = _assign_map(f.body)
         Y = QX({'m': 'm'}, lens={vecs: 'lenV'}, path=path, bools={'happy': 'happy'})
-        if 'm' not in am:
-            raise TranslateError('%s: %s: m not found' % (path, fname))
-        D.append(('%s_m' % fname, '(happy : bool) (lenV : Q)', Y.tr(am['m']), 'Q'))
+        ms = [st.value for st in f.body if isinstance(st, ast.Assign) and isinstance(st.targets[0], ast.Name) and st.targets[0].id == 'm']
+        if len(ms) != 2 or ast.unparse(ms[1]) != 'min(m, max((x.size for x in %s)))' % vecs:
+            raise TranslateError('%s: %s: expected m = (len if happy else len - 1) followed by the cap m = min(m, max(x.size for x in %s))' % (path, fname, vecs))
+        D.append(('%s_m' % fname, '(happy : bool) (lenV : Q)', Y.tr(ms[0]), 'Q'))
+        D.append(('%s_m_cap' % fname, '(m supp : Q)', '(Qmin m supp)', 'Q'))
         sl = am.get(vecs)
         if not (isinstance(sl, ast.Subscript) and isinstance(sl.value, ast.Name) and sl.value.id == vecs and isinstance(sl.slice, ast.Slice)
                 and sl.slice.lower is None and sl.slice.step is None and sl.slice.upper is not None):
